@@ -209,6 +209,10 @@ class Folder:
                 return local_enum.value(n.id)
             if n.id in self.env:
                 return self.env[n.id]
+            if n.id in self.enums:
+                # the enum class itself, iterated: its members in definition order (aliases excluded)
+                e_ = self.enums[n.id]
+                return [EnumRef(e_.name, k_) for k_ in e_.members]
             raise Unfoldable(n.id)
         if isinstance(n, ast.Tuple):
             return tuple(self._elts(n.elts, local_enum))
